@@ -265,44 +265,10 @@ def _first_gen(case):
 
 def known_length_longer(case, vio):
     """ArrayGenerator::generate_and_check accepts a generated array longer than the declared length"""
-    return _first_gen(case) == "long" and vio.get("bucket", "").startswith("unenforced:")
+    return _first_gen(case) == "long" and vio.get("bucket", "").startswith("unenforced:long|")
 
 
-def _record_longer_than_length(d):
-    return K.any_node(d, lambda n: n["class"] == "RecordArray" and n.get("length") is not None
-                      and any(M.length_of(c) > n["length"] for c in n["contents"]))
-
-
-def known_recordarray_merge_untrimmed(case, vio):
-    """RecordArray::mergemany does not trim its own fields to the record length: seen through repartition (which merges pieces)"""
-    return (case.get("part") == "partition" and any(o["op"] == "repartition" for o in case["ops"])
-            and vio.get("bucket", "").startswith("partition:value|")
-            and any(_record_longer_than_length(d) for d in case["pieces"]))
-
-
-def known_empty_range_of_strings(case, vio):
-    """PartitionedArray::getitem_range_nowrap builds its empty result with getitem_nothing(): for strings that is a char array, printed as [""]"""
-    return (case.get("part") == "partition" and vio.get("bucket") == "partition:value|tojson" and vio.get("expected") == [] and vio.get("observed") == [""]
-            and any(o["op"] == "narrow" for o in case["ops"])
-            and ("'string'" in repr(M.decode(case["pieces"][0])[0]) or "'bytes'" in repr(M.decode(case["pieces"][0])[0])))
-
-
-def known_nd_numpy_partition_tojson(case, vio):
-    """NumpyArray::tojson_* ignore include_beginendlist=false when ndim > 1: a multidimensional NumpyArray partition is printed one level too deep"""
-    return (case.get("part") == "partition" and vio.get("bucket") == "partition:value|tojson"
-            and any(d["class"] == "NumpyArray" and len(d["shape"]) > 1 for d in case["pieces"]))
-
-
-def known_repartition_past_end(case, vio):
-    """IrregularlyPartitionedArray::repartition indexes partitions_[numpartitions] for a trailing empty partition (only executed when 'unguarded')"""
-    return case.get("part") == "partition" and bool(case.get("unguarded")) and vio.get("bucket", "").startswith("crash:")
-
-
-KNOWN = {"virtual_generated_longer_than_declared": known_length_longer,
-         "recordarray_mergemany_untrimmed_self": known_recordarray_merge_untrimmed,
-         "partitioned_empty_range_of_strings": known_empty_range_of_strings,
-         "numpy_nd_partition_tojson_nested": known_nd_numpy_partition_tojson,
-         "repartition_past_last_partition": known_repartition_past_end}
+KNOWN = {"virtual_generated_longer_than_declared": known_length_longer}
 
 
 def pre_exclude(case):
@@ -517,6 +483,10 @@ def _run_virtual(case, run):
         except ValueError:
             if gk in BAD_GENERATORS and run.calls[0] > 0:
                 return {"tags": ["part:virtual", "gen:" + gk, "mismatch_detected_at_construction"], "nontrivial": False}
+            if gk == "long" and w0["path"] and run.calls[0] == 0:
+                # the declared length is shorter than the node it replaces: the enclosing node's constructor (which only sees
+                # the declaration) rightly refuses a content that short - not a layout the statement quantifies over
+                return {"discarded": "declared length shorter than the enclosing node needs"}
             raise
     if virt_root is None:
         raise Violation("phantom_failure:construction", "the generator's exception keeps surfacing although no further generation fails")
@@ -791,9 +761,8 @@ def run_partition(case):
                 whole = D.build(gen.canonical(T, vals))
         elif op == "repartition":
             new = spec["stops"]
-            if repartition_reads_past_end(stops, new) and not case.get("unguarded"):
-                tags.append("pop_skipped:repartition_past_last_partition")      # known finding: would read partitions_[numpartitions]
-                continue
+            if repartition_reads_past_end(stops, new):
+                tags.append("repartition_trailing_empty")      # once read partitions_[numpartitions] (fixed finding)
             kind, res = ops.outcome(lambda: p.repartition(new))
             if kind == "OtherNativeError":
                 raise Violation("exception:partition_repartition", "non-documented C++ exception: " + res[:200], clause="C12-exception")
